@@ -619,9 +619,15 @@ class Array(metaclass=MetaArray):
     def _update(self, value):
         if is_integer(value):
             ll = value
+            compatible = len(self) == ll
         else:
             ll = len(value)
-        if len(self) == ll:
+            # compare shapes: len() of a nested value only counts its rows
+            shape = get_shape_from_array(value, len(self._shape))
+            compatible = tuple(shape) == tuple(self._shape) or (
+                len(self) == 0 and ll == 0
+            )
+        if compatible:
             self.__class__._to_buffer(self._buffer, self._offset, value)
         else:
             if is_integer(value):
